@@ -238,14 +238,32 @@ package auth
 //@   requires {C17} [well-formed] i.items != nil
 //@   ensures {C17} [entry-is-the-account] in(k, i.items) && i.items[k].value == v
 //@   ensures {C17} [other-keys-untouched] forall q string :: q != k ==> (in(q, i.items) <==> old(in(q, i.items))) && i.items[q] == old(i.items[q])
-//@ func (*icache) Delete
+// the change count orders lookups against updates and deletes: it is read before the lookup goes to the service, every
+// update and delete adds one, and what the lookup brings back is stored only under the count it read
+//@ func (*icache) changeCount
+//@   frame none
+//@   ensures {C17} [the-count] ret0 == i.changes
+//@ func (*icache) setIfUnchanged
 //@   modifies maps
 //@   requires {C17} [well-formed] i.items != nil
+//@   ensures {C17} [stored-if-nothing-changed] old(i.changes) == count ==> in(k, i.items) && i.items[k].value == v
+//@   ensures {C17} [dropped-if-something-changed] old(i.changes) != count ==> (in(k, i.items) <==> old(in(k, i.items))) && i.items[k] == old(i.items[k])
+//@   ensures {C17} [other-keys-untouched] forall q string :: q != k ==> (in(q, i.items) <==> old(in(q, i.items))) && i.items[q] == old(i.items[q])
+//@   ensures {C17} [count-kept] i.changes == old(i.changes)
+//@ func (*icache) Delete
+//@   modifies args maps
+//@   arith assumed
+//@   requires {C17} [well-formed] i.items != nil
+//@   ensures {C17} [counted] i.changes != old(i.changes)
+//@   ensures {C17} [the-map-itself-is-kept] i.items == old(i.items) && i.expire == old(i.expire)
 //@   ensures {C17} [entry-gone] !in(k, i.items)
 //@   ensures {C17} [other-keys-untouched] forall q string :: q != k ==> (in(q, i.items) <==> old(in(q, i.items))) && i.items[q] == old(i.items[q])
 //@ func (*icache) update
-//@   modifies maps
+//@   modifies args maps
+//@   arith assumed
 //@   requires {C17} [well-formed] i.items != nil
+//@   ensures {C17} [counted] i.changes != old(i.changes)
+//@   ensures {C17} [the-map-itself-is-kept] i.items == old(i.items) && i.expire == old(i.expire)
 //@   ensures {C17} [present-entry-updated] old(in(k, i.items)) ==> in(k, i.items) \
 //@        && i.items[k].value.Secret == ite(props.Secret != nil, old(*props.Secret), old(i.items[k].value.Secret)) \
 //@        && i.items[k].value.UserID == ite(props.UserID != nil, old(*props.UserID), old(i.items[k].value.UserID)) \
@@ -277,7 +295,10 @@ package auth
 //@   ensures {C17} [update-does-not-resurrect] err == nil && !old(in(access, c.iamcache.items)) ==> !in(access, c.iamcache.items)
 //@ func (*IAMCache) GetUserAccount
 //@   requires {C17} [well-formed] c.iamcache != nil && c.iamcache.items != nil
-//@   at-call auth.icache.set {C17} [cache-key-outlives-the-request] requires ownedstr($1)
+//@   at-call auth.icache.setIfUnchanged {C17} [cache-key-outlives-the-request] requires ownedstr($1)
+//@   at-call auth.icache.changeCount {C17} [the-count-is-read-before-the-lookup-goes-out] requires !called("auth.IAMService.GetUserAccount")
+//@   at-call auth.icache.setIfUnchanged {C17} [stored-only-under-the-count-read-before-the-lookup] requires called("auth.icache.changeCount") && $3 == result("auth.icache.changeCount", 0)
+//@   at-call? auth.icache.set {C17} [a-looked-up-account-is-never-stored-unconditionally] requires false
 //@   ensures {C17} [miss-caches-the-service-answer] err == nil ==> in(access, c.iamcache.items) && (ret0 == c.iamcache.items[access].value)
 
 // ---- C17: the file-backed account store never writes anything but what it read, unless the update succeeded ----
